@@ -14,7 +14,7 @@ pub struct C10;
 fn cfg(tier: Tier) -> ProgCfg {
     ProgCfg {
         mix: OpMix { write: 12, remove: 5, remove_fully: 1, idx_insert: 2, idx_delete: 1, ..OpMix::NONE },
-        wmix: WriteMix { bad_decls: false, meta: true, by_hash: false },
+        wmix: WriteMix { bad_decls: false, meta: true, by_hash: false, rich_matching: false, interfere: false },
         sizes: SizeMix::Small,
         keys: (1, 12),
         blobs: (1, 4),
